@@ -472,6 +472,7 @@ func C07() int {
 	cnt := map[string]int{}
 	distinct := findings.NewDistinct()
 	done, executed, capped := 0, 0, false
+	libDone, libExecuted := 0, 0
 	execBudget := 6000
 	if r.Thorough() {
 		execBudget = 60000
@@ -520,6 +521,49 @@ func C07() int {
 				rep("accepted-"+tg, "transpiled although the construct is out of scope or misplaced")
 			}
 		}
+		// the same program as an IMPORTED file (main only imports it and prints one line): an import boundary
+		// changes nothing about the block structure inside the file, so the verdict is the same and the
+		// file's top-level code runs before the importer's
+		if len(items) <= 3 && c07Count(items) <= 3 {
+			libMain := &Prog{Imports: []Import{{Alias: "lb", Path: "lib.tsh"}}, Stmts: []Stmt{Print{Args: []Expr{StrLit{V: "importer"}}}}}
+			mainSrc := PrintProg(*libMain)
+			files := map[string]string{"main.tsh": mainSrc, "lib.tsh": src}
+			repL := func(sym, detail string) {
+				r.Fail("skeleton="+name+" as=imported-file symptom="+sym, fmt.Sprintf("scope skeleton `%s` as an imported file: %s (%s; oracle: %s)", name, sym, detail, why), func() findings.Replay {
+					return findings.Replay{Files: map[string]string{"src/main.tsh": mainSrc, "src/lib.tsh": src, "detail.txt": sym + ": " + detail + "\noracle: " + why + "\n"},
+						Script: transpileOnlyReplay()}
+				})
+			}
+			var lres [2]drive.TResult
+			for t := 0; t < 2; t++ {
+				lres[t] = drive.Transpile(files, "main.tsh", drive.Target(t))
+				tg := drive.Target(t).String()
+				switch {
+				case lres[t].Panic != "":
+					repL("panic-"+tg, firstLine(lres[t].Panic))
+				case verdict == vAccept && !lres[t].OK():
+					repL("rejected-"+tg, lres[t].Err)
+				case verdict == vReject && !lres[t].Rejected():
+					repL("accepted-"+tg, "transpiled although the construct is out of scope or misplaced")
+				}
+			}
+			mu.Lock()
+			libDone++
+			runL := verdict == vAccept && lres[0].OK() && libExecuted < execBudget/2
+			if runL {
+				libExecuted++
+			}
+			mu.Unlock()
+			if runL {
+				lib := prog
+				o := ProgOpts{Files: map[string]string{"lib.tsh": src}, Loader: func(from, path string) (string, *Prog) { return path, lib }}
+				pv := JudgeBash(libMain, o)
+				if pv.Symptom != "" && pv.Symptom != "undefined" {
+					pv = confirm(libMain, o, pv)
+					r.Fail("skeleton="+name+" as=imported-file symptom=run-"+pv.Symptom, fmt.Sprintf("accepted scope skeleton `%s` misbehaves when run as an imported file: %s (%s)", name, pv.Symptom, pv.Detail), progReplay(pv, map[string]string{"src/lib.tsh": src}))
+				}
+			}
+		}
 		if verdict == vAccept && res[0].OK() {
 			mu.Lock()
 			run := executed < execBudget
@@ -559,6 +603,8 @@ func C07() int {
 		}
 	}
 	r.Set("import_boundary_cases", len(c07ImportCases()))
+	r.Set("skeletons_also_judged_as_imported_file", libDone)
+	r.Set("skeletons_executed_as_imported_file", libExecuted)
 	r.Set("oracle_accept", cnt["oracle-accept"])
 	r.Set("oracle_reject", cnt["oracle-reject"])
 	r.Set("oracle_unspecified_skipped", cnt["oracle-unspecified"])
@@ -580,4 +626,16 @@ for t in bash batch; do
   if "$T/tsh" -i src/main.tsh -o "$T/out" -t $t >"$T/log.$t" 2>&1; then echo "$t: ACCEPTED"; else echo "$t: REJECTED: $(grep -m1 -E 'panic|error' "$T/log.$t" | cut -c1-200)"; fi
 done
 cat detail.txt`
+}
+
+// c07Count is the total number of items of a skeleton (all nesting levels).
+func c07Count(items []c07Item) int {
+	n := 0
+	for _, it := range items {
+		n++
+		for _, k := range it.kids {
+			n += c07Count(k)
+		}
+	}
+	return n
 }
